@@ -488,4 +488,30 @@ theorem xml_hNoAdj (cfg : HtmlCfg) (st : HSt) (n : Str) (a : List (Str × Str)) 
         (repeat' split) <;>
         simp_all [hNoAdjFrom_cons, hNoAdjFrom, hLastFrom, hcls, clsOk, Tok.cls, Tok.isTextual, Tok.isIns]
 
+/-! ### raw-ness is scoped to the script/style element's own content -/
+
+/-- outside a script element and outside a RAW (style) element, with no pending marker, a text — whether it arrives as
+`characters` or as `cdata` — is written as an (escaped) text token, never raw -/
+theorem text_outside_script_is_text (cfg : HtmlCfg) (st : HSt) (t : Str) (ht : t.isEmpty = false)
+    (h1 : st.nextIsRaw = false) (h2 : st.inScriptElemStack.headD false = false) (h3 : st.isRawStack.headD false = false) :
+    (step cfg st (.characters t)).2 = gtOut st.elemStack ++ [HTok.t (.text t)] ∧
+    (step cfg st (.cdata t)).2 = gtOut st.elemStack ++ [HTok.t (.text t)] := by
+  have h2' : st.inScriptElemStack.head?.getD false = false := by simpa using h2
+  have h3' : st.isRawStack.head?.getD false = false := by simpa using h3
+  simp [step, stepCore, characters, ht, h1, h2', h3']
+
+/-- the two stacks that make text raw are pushed by the start tag and popped by the end tag: whatever the element is
+(script, style or any other), after its end tag they are what they were before its start tag -/
+theorem raw_stacks_restored (cfg : HtmlCfg) (st : HSt) (n : Str) (a : List (Str × Str)) (st' : HSt)
+    (hs : st'.inScriptElemStack = (htmlStartElement cfg st n a).1.inScriptElemStack)
+    (hr : st'.isRawStack = (htmlStartElement cfg st n a).1.isRawStack) :
+    (htmlEndElement cfg st' n).1.inScriptElemStack = st.inScriptElemStack ∧
+    (htmlEndElement cfg st' n).1.isRawStack = st.isRawStack := by
+  have e1 : (htmlStartElement cfg st n a).1.inScriptElemStack.tail = st.inScriptElemStack := by
+    simp [htmlStartElement]
+  have e2 : (htmlStartElement cfg st n a).1.isRawStack.tail = st.isRawStack := by
+    simp [htmlStartElement]
+  unfold htmlEndElement
+  rcases st'.elemStack with _ | ⟨_ | _, r⟩ <;> simp [hs, hr, e1, e2] <;> (repeat' split) <;> simp [hs, hr, e1, e2]
+
 end XalanModel.C08.Html
